@@ -432,6 +432,42 @@ Qed.
 Lemma index_set_perm (e e' : list Z) (len : nat) : Permutation e e' -> index_assign e len = index_assign e' len.
 Proof. intros Hp. unfold index_assign. apply loop_perm; auto. intros a x y. apply assign_from_comm. Qed.
 
+Lemma assign_from_length v : forall s i, List.length (assign_from s v i) = List.length v.
+Proof. induction v as [|b r IH]; intros s i; cbn; [reflexivity|]. rewrite IH. reflexivity. Qed.
+
+Lemma assign_from_nth v : forall s i k,
+  nth k (assign_from s v i) false = ((s + Z.of_nat k =? i) && (k <? List.length v)%nat) || nth k v false.
+Proof.
+  induction v as [|b r IH]; intros s i k; cbn.
+  - destruct k; cbn; rewrite andb_false_r; reflexivity.
+  - destruct k as [|k]; cbn.
+    + rewrite Z.add_0_r. destruct (s =? i); reflexivity.
+    + rewrite IH. replace (s + 1 + Z.of_nat k) with (s + Z.pos (Pos.of_succ_nat k)) by lia. reflexivity.
+Qed.
+
+Lemma loop_assign_length e : forall v, List.length (loop assign_bit e v) = List.length v.
+Proof.
+  unfold loop. induction e as [|x e IH]; intros v; cbn; [reflexivity|]. rewrite IH. apply assign_from_length.
+Qed.
+
+Lemma loop_assign_nth e : forall v k, (k < List.length v)%nat ->
+  nth k (loop assign_bit e v) false = existsb (Z.eqb (Z.of_nat k)) e || nth k v false.
+Proof.
+  unfold loop. induction e as [|x e IH]; intros v k Hk; cbn [fold_left existsb]; [reflexivity|].
+  rewrite IH by (unfold assign_bit; rewrite assign_from_length; exact Hk).
+  unfold assign_bit. rewrite assign_from_nth, Z.add_0_l.
+  apply Nat.ltb_lt in Hk. rewrite Hk, andb_true_r.
+  destruct (Z.of_nat k =? x); destruct (existsb (Z.eqb (Z.of_nat k)) e); destruct (nth k v false); reflexivity.
+Qed.
+
+(* fingerprints[list(bits)] = 1 on zeros(length): bit k is set iff k is a member of the set *)
+Lemma index_assign_spec (e : list Z) (len k : nat) : (k < len)%nat ->
+  nth k (index_assign e len) false = existsb (Z.eqb (Z.of_nat k)) e.
+Proof.
+  intros Hk. unfold index_assign. rewrite loop_assign_nth by (rewrite repeat_length; exact Hk).
+  rewrite nth_repeat. apply orb_false_r.
+Qed.
+
 (* ------------------------------------------------------------------------------------------------------------ *)
 (* list(v) for a set v of str is NOT order free: the model of `{k: list(v) ...}` in morgan_hash_smiles is the
    enumeration itself, and two enumerations of the same two-member set differ *)
